@@ -423,7 +423,7 @@ def runFlowMod (h : FlowModH) (s : SwitchState) (xid command : Nat) (mk : MKey) 
   | .deleteStrict => flowModDelete true s mk prio outPort
 
 /-- `_rx_flow_mod` (repair D9: the unknown-command branch sends the error instead of raising `NameError`) -/
-def rxFlowMod (s : SwitchState) (xid command : Nat) (mk : MKey) (prio cookie flags idle hard outPort : Nat)
+def rxFlowModBody (s : SwitchState) (xid command : Nat) (mk : MKey) (prio cookie flags idle hard outPort : Nat)
     (bufferId : Option Nat) (acts : List Act) : Res :=
   match flowModTable.lookup command with
   | none => .ok (s, [fmErr xid OFPFMFC_BAD_COMMAND])
@@ -435,6 +435,18 @@ def rxFlowMod (s : SwitchState) (xid command : Nat) (mk : MKey) (prio cookie fla
       match processFromBuffer xid r.1 acts id with
       | .error e => .error e
       | .ok (s2, o2) => .ok (s2, r.2 ++ o2)
+
+/-- repair C13-4: an ADD / MODIFY / MODIFY_STRICT whose action list contains a type without handler is refused -/
+def badActions (command : Nat) (acts : List Act) : Bool :=
+  (command == OFPFC_ADD || command == OFPFC_MODIFY || command == OFPFC_MODIFY_STRICT) &&
+    acts.any fun a => (actionTable.lookup a.ty).isNone
+
+/-- `_rx_flow_mod`: unknown command, then the action pre-check (nothing installed, the buffer not touched), then the
+command's handler and the buffered packet -/
+def rxFlowMod (s : SwitchState) (xid command : Nat) (mk : MKey) (prio cookie flags idle hard outPort : Nat)
+    (bufferId : Option Nat) (acts : List Act) : Res :=
+  if badActions command acts then .ok (s, [sendError xid OFPET_BAD_ACTION OFPBAC_BAD_TYPE])
+  else rxFlowModBody s xid command mk prio cookie flags idle hard outPort bufferId acts
 
 /-! ### port_mod -/
 
